@@ -61,7 +61,9 @@ def write(prop, tier, seed, reports, harness_errors, nondet, wall, n_viol, known
         for k in ("c06_ongrid_rows", "c08_agents_in_memo", "c04_seam_rows_checked", "c04_seam_calls"):
             _acc(probes, k, s.get(k, 0) or 0)
         for k, v in (s.get("c04") or {}).items():
-            if isinstance(v, (int, float)):
+            if k == "min_p_log10":
+                c04[k] = min(c04.get(k, 0.0), v)  # the smallest p-value of any run, not a sum
+            elif isinstance(v, (int, float)):
                 _acc(c04, k, v)
         sw = r.get("swarm") or {}
         _acc(swarm, f"workers={sw.get('n_workers')}", 1)
